@@ -1,5 +1,6 @@
 #!/usr/bin/env python3
-"""usage: expect_detect.py [seed names...]  — for every seeded change: apply it to a scratch copy of /repo, run the quick
+"""usage: expect_detect.py [--verify] [seed names...]  (--verify: compare with the recorded expect_detect, change nothing)
+  — for every seeded change: apply it to a scratch copy of /repo, run the quick
 check of its own property and of the properties in also_check there, and record in meta.json (expect_detect) which of
 them report it. /repo itself is not touched. The thorough tier's must-fail corpus uses expect_detect."""
 import json,os,subprocess,sys,tempfile,shutil,glob
@@ -18,10 +19,15 @@ def one(d):
         r=subprocess.run(['/verif/bin/vfy','check',i,'--repo',tree,'--out',f'{sc}/out_{i}','--tier','quick','--nocorpus'],capture_output=True,text=True,env=dict(os.environ,VERIF_TIER='quick'))
         if r.returncode!=0 and (f'VIOLATION property={i}' in r.stdout or 'BROKEN' in r.stdout): det.append(i)
     shutil.rmtree(sc)
+    if VERIFY:
+        lost=[i for i in m.get('expect_detect',[]) if i not in det]
+        return name,(['LOST:'+','.join(lost)] if lost else ['same'])+det
     m['expect_detect']=det
     json.dump(m,open(f'{d}/meta.json','w'),indent=1)
     return name,det
-dirs=[f'/verif/seeded/{n}' for n in sys.argv[1:]] or sorted(glob.glob('/verif/seeded/*'))
+VERIFY='--verify' in sys.argv
+args=[a for a in sys.argv[1:] if a!='--verify']
+dirs=[f'/verif/seeded/{n}' for n in args] or sorted(glob.glob('/verif/seeded/*'))
 with ThreadPoolExecutor(3) as ex:
     for name,det in ex.map(one,dirs):
         print(name,'does-not-apply' if det is None else (' '.join(det) or 'NONE'),flush=True)
